@@ -11,6 +11,8 @@
 //   short      read/write/pwrite transfer only half of the requested count (no-op if count < 2)
 //   eintr      read/write/pwrite/poll fail with EINTR, nothing transferred (no-op elsewhere)
 //   eagain     read/write/pwrite fail with EAGAIN, nothing transferred (no-op elsewhere)
+//   tmo        poll() with a finite timeout returns 0 at once, as if the timeout had expired with nothing ready (no-op elsewhere
+//              and for poll(-1)): with 'eagain' on the preceding read() this is xz's --flush-timeout firing, without any waiting
 //   sig:<n>    raise(n) in the calling thread BEFORE the call, then the call proceeds normally
 //   exit       _exit(99) before the call (process death at that instant)
 //
@@ -38,8 +40,8 @@
 #include <sys/types.h>
 #include <unistd.h>
 
-enum { K_NONE = 0, K_ERR, K_SHORT, K_EINTR, K_EAGAIN, K_SIG, K_EXIT, K_NOOP };
-static const char *const kname[] = { "-", "err", "short", "eintr", "eagain", "sig", "exit", "noop" };
+enum { K_NONE = 0, K_ERR, K_SHORT, K_EINTR, K_EAGAIN, K_SIG, K_EXIT, K_NOOP, K_TMO };
+static const char *const kname[] = { "-", "err", "short", "eintr", "eagain", "sig", "exit", "noop", "tmo" };
 
 struct fault { long k; int kind; int arg; };
 static struct fault faults[16];
@@ -79,6 +81,7 @@ __attribute__((constructor)) static void shim_init(void)
 		else if (!strncmp(t, "short", 5)) f.kind = K_SHORT;
 		else if (!strncmp(t, "eintr", 5)) f.kind = K_EINTR;
 		else if (!strncmp(t, "eagain", 6)) f.kind = K_EAGAIN;
+		else if (!strncmp(t, "tmo", 3)) f.kind = K_TMO;
 		else if (!strncmp(t, "exit", 4)) f.kind = K_EXIT;
 		else if (!strncmp(t, "sig:", 4)) { f.kind = K_SIG; f.arg = atoi(t + 4); }
 		faults[nfaults++] = f;
@@ -205,7 +208,7 @@ ssize_t pwrite64(int fd, const void *buf, size_t n, off_t off) { return pwrite(f
 
 // ---- generic "int f(...)" calls: err => -1/errno, everything else passes through -------------------
 
-static inline int SIMPLE_KIND(int kind) { return kind == K_SHORT || kind == K_EINTR || kind == K_EAGAIN ? K_NOOP : kind; }
+static inline int SIMPLE_KIND(int kind) { return kind == K_SHORT || kind == K_EINTR || kind == K_EAGAIN || kind == K_TMO ? K_NOOP : kind; }
 
 off_t lseek(int fd, off_t o, int w)
 {
@@ -401,6 +404,7 @@ int poll(struct pollfd *fds, nfds_t n, int timeout)
 	int r;
 	if (kind == K_ERR) { errno = EIO; r = -1; }
 	else if (kind == K_EINTR) { errno = EINTR; r = -1; }
+	else if (kind == K_TMO && timeout >= 0) { for (nfds_t i = 0; i < n; ++i) fds[i].revents = 0; r = 0; }
 	else r = real(fds, n, timeout);
 	finish(ord, "poll", fd, (long)timeout, r, kind, NULL);
 	return r;
@@ -463,6 +467,19 @@ int fgetc(FILE *f)
 	if (kind == K_ERR) { bad_stream = f; errno = EIO; r = EOF; } else r = real(f);
 	// the return value is logged as 0/-1 only: the characters are the user's file names
 	finish(ord, "fgetc", fd, 0, kind == K_ERR ? -1 : 0, kind, NULL);
+	return r;
+}
+
+// The final fclose(stdout) of tuklib_exit(): the last point at which a delayed write error of standard output can surface.
+int fclose(FILE *f)
+{
+	REAL(int, fclose, FILE *);
+	if (!active || inside || f != stdout)
+		return real(f);
+	long ord; int kind = SIMPLE_KIND(begin("fclose", 1, NULL, &ord));
+	int r = real(f);
+	if (kind == K_ERR) { errno = EIO; r = EOF; }
+	finish(ord, "fclose", 1, 0, r, kind, NULL);
 	return r;
 }
 
